@@ -8,8 +8,8 @@ from props import c12_util as U
 
 PROP = "C12"
 LEVEL = "proof"
-GEN_UNITS = ["GenHandles"]
-COQ_TARGETS = ["Props/C12.vo", "Model/C12Harness.vo", "Proofs/C12Mttkrps.vo", "Proofs/C12Setup.vo", "Model/Harness.vo"]
+GEN_UNITS = ["GenHandles", "GenFgSetup", "GenKernels"]
+COQ_TARGETS = ["Props/C12.vo", "Model/C12Harness.vo", "Proofs/C12Mttkrps.vo", "Proofs/C12Setup.vo", "Proofs/C12GenTie.vo", "Model/Harness.vo"]
 THEOREM_FILES = ["Props/C12.v"]
 COQ_IMPORTS = ("From Coq Require Import List ZArith Bool QArith Qcanon.\n"
                "From PV Require Import Base.Index Np.Array Model.Sparse Model.Repr Model.Harness Model.C12Gcp Model.C12Harness Proofs.C12Mttkrps.\n"
@@ -31,7 +31,8 @@ EXPLANATION = ("T1 theorems are stated over Gen/GenHandles.v, regenerated from p
 CORRESPONDENCE_ONLY = ["tensor.mttkrps: the byte-level numpy reshapes (the split / partial-contraction algorithm itself is proved equal to the "
                        "per-mode definition for every split index in Proofs/C12Mttkrps.v at the level of partial contractions; that model, "
                        "evaluated at min_split, is compared with pyttb on generated inputs incl. skewed 4-way and 5-way shapes)",
-                       "fg_setup.setup: hand model of the objective table (Proofs/C12Setup.v) tied by correspondence over all ten objectives",
+                       "fg_setup.setup: the executable acceptance check on concrete data (value classes) is a hand model tied by correspondence; "
+                       "the table itself (handles, bound, parameter, which valid_* flag) is proved equal to the generated Gen/GenFgSetup.v",
                        "fg_est.estimate(lambda_check=True): ktensor.normalize(0) is taken as 'unit column norms, weight * norms absorbed into mode 0' "
                        "(norms computed by the harness), everything downstream is the exact model"]
 ASSUMPTIONS = ["models have at least two modes (fg.evaluate and fg_est.estimate raise on 1-way models)",
